@@ -381,7 +381,7 @@ fn builder_session(c: &Corpus, which: Impl, compressed: bool, style: u64, total_
             }
         })
     };
-    let mut read_one = |conn: &mut Conn| -> Option<ReadResult> {
+    let read_one = |conn: &mut Conn| -> Option<ReadResult> {
         *waiting_since.lock().unwrap() = Some(Instant::now());
         let r = match conn {
             Conn::Blocking(f) => Some(classify(f.read())),
